@@ -135,6 +135,10 @@ def lazy_parallel_map(
 
         def terminate(ex: pathos.multiprocessing.ProcessPool, q):
             ex.terminate()
+            # pathos caches its pools. Remove the terminated pool from the
+            # cache, otherwise the next ProcessPool with the same number of
+            # workers reuses it and fails with "ValueError: Pool not running".
+            ex.clear()
             # Cancel doesn't work for pathos. Don't know why.
             # try:
             #     while True:
